@@ -19,7 +19,7 @@ func init() {
 		Title: "A WAF follows its own configuration only; pattern caching is invisible",
 		Explanation: "Decides the cache-key discipline of the process-wide memoizer, not behavioural equality with an uncached build: R1 every memoize call site builds its key from a constant role prefix; call sites sharing a prefix cache the same dynamic type built by the same constructor, and distinct prefixes are pairwise prefix-free (no key of one role can equal a key of another); " +
 			"R2 completeness: every variable captured by the cached closure is derived from values the key is computed from (dependency closure over SSA operands; results of impure calls such as file reads count as sources of their own); " +
-			"R3 WAF.Close releases the WAF's entries exactly once and Release deletes an entry only when its owner set is empty, under the entry lock; R4 the three build variants of the memoize package export the same API (each configuration type-checks, thorough tier).",
+			"R3 WAF.Close releases the WAF's entries exactly once and Release deletes an entry only when its owner set is empty, under the entry lock; R5 cached objects are never mutated in place (no call of (*Regexp).Longest, the only mutating method of the cached library types); R4 the three build variants of the memoize package export the same API (each configuration type-checks, thorough tier).",
 		NotDecided: []string{
 			"behavioural equality with the cache compiled out",
 			"that two different inputs never produce the same key suffix (separator ambiguity inside the suffix is only checked for the shapes listed in R2)",
@@ -179,6 +179,38 @@ func runC13(c *an.Ctx) {
 		} else {
 			c.Ok("R2", key+": cached value determined by the key", s.call.Pos(), fmt.Sprintf("%d captured variables all derive from the key's operands", len(s.binds)))
 		}
+		// ... and the key is a lossless rendering of those inputs: an input the closure captures must reach the key
+		// through concatenation / formatting / hashing only, not through a normalising function (Fields, ToLower,
+		// TrimSpace ...) that maps different inputs to the same key text.
+		inj := injectiveDeps(s.key)
+		var lossy []string
+		for i, b := range s.binds {
+			if _, isC := b.(*ssa.Const); isC {
+				continue
+			}
+			// sources that reach the captured value along a path avoiding everything the key renders losslessly
+			for r := range an.RootsAvoiding(b, inj) {
+				if !keyDeps[r] {
+					covered := false
+					for d := range keyDeps {
+						if an.Expr(d) == an.Expr(r) {
+							covered = true
+						}
+					}
+					if !covered {
+						continue // not in the key at all: reported by the completeness check above
+					}
+				}
+				name := "?"
+				if i < len(s.closure.FreeVars) {
+					name = s.closure.FreeVars[i].Name()
+				}
+				lossy = append(lossy, name+" <- "+tempName.ReplaceAllString(an.Expr(r), ""))
+			}
+		}
+		sort.Strings(lossy)
+		c.Check(len(lossy) == 0, "R2", key+": key is a lossless rendering of the cached inputs", s.call.Pos(), "inputs reach the key through concatenation/formatting/hashing only",
+			"the cached closure is computed from "+strings.Join(lossy, "; ")+" along a path the key does not render losslessly (the key sees that input only through a normalising function such as Fields/ToLower/Trim, the closure sees more of it): inputs that normalise to the same key text but build different values share one cache entry, so which WAF is built first decides what the others get")
 	}
 	c.MinCount("R1", "memoize call sites", len(sites), 9)
 	// groups: same type and constructor
@@ -225,6 +257,30 @@ func runC13(c *an.Ctx) {
 				"one role prefix is a prefix of the other: keys of the two roles can collide")
 		}
 	}
+	// ---- R5 cached values are immutable: they are shared by every WAF (and every role under the same prefix),
+	// so nothing may change them after construction.  The cached types are library objects (regexp, binaryregexp,
+	// aho-corasick, JSON schemas) whose only mutating method is (*Regexp).Longest; it must not be called on
+	// anything that comes out of the cache — simplest sound form: it is not called in the module at all.
+	nLongest := 0
+	for _, fn := range c.P.ModFuncs {
+		rp := relPkg(fn)
+		if strings.HasPrefix(rp, "testing") || strings.HasPrefix(rp, "examples") {
+			continue
+		}
+		an.Instrs(fn, func(in ssa.Instruction) {
+			cc := an.CallOf(in)
+			if cc == nil || cc.StaticCallee() == nil || cc.StaticCallee().Name() != "Longest" || cc.StaticCallee().Signature.Recv() == nil {
+				return
+			}
+			if !strings.HasSuffix(cc.StaticCallee().Signature.Recv().Type().String(), "regexp.Regexp") {
+				return
+			}
+			nLongest++
+			c.Bad("R5", "Regexp.Longest called in "+an.RelName(fn), in.Pos(), "Longest() switches a compiled regexp to leftmost-longest matching in place; compiled regexps are shared through the process-wide cache (key 'regexp:'+pattern and others), so every other WAF and every other role using the same pattern text changes behaviour")
+		})
+	}
+	c.OkTrivial("R5", "no in-place mutation of cached library objects", token.NoPos, fmt.Sprintf("%d calls of (*Regexp).Longest in the module", nLongest))
+
 	// ---- R3 release
 	c13Release(c)
 	c13API(c)
@@ -457,4 +513,135 @@ func memoMissing(s memoSite, keyDeps map[ssa.Value]bool) []string {
 	}
 	sort.Strings(missing)
 	return missing
+}
+
+// injectiveDeps walks from the key through steps that keep distinct inputs distinct (string concatenation,
+// fmt formatting, conversions, projections, phi, hashing and hex/number formatting) and returns every value
+// reached, including the results of other calls (which are leaves: what happens inside them is unknown).
+func injectiveDeps(key ssa.Value) map[ssa.Value]bool {
+	seen := map[ssa.Value]bool{}
+	var walk func(v ssa.Value)
+	okCall := func(c *ssa.Call) bool {
+		callee := c.Call.StaticCallee()
+		if callee == nil {
+			return false
+		}
+		if callee.Origin() != nil {
+			callee = callee.Origin()
+		}
+		if callee.Pkg == nil {
+			return false
+		}
+		switch callee.Pkg.Pkg.Path() {
+		case "fmt":
+			return strings.HasPrefix(callee.Name(), "Sprint")
+		case "strconv":
+			return strings.HasPrefix(callee.Name(), "Itoa") || strings.HasPrefix(callee.Name(), "Format") || strings.HasPrefix(callee.Name(), "Quote")
+		case "crypto/sha256", "crypto/sha1", "crypto/md5", "crypto/sha512", "encoding/hex", "encoding/base64":
+			return true
+		case "strings":
+			// Join is lossless when no element can contain the separator; accepted only at reviewed sites
+			if callee.Name() == "Join" && c.Parent() != nil {
+				_, ok := c13JoinAllow[an.RelName(c.Parent())]
+				return ok
+			}
+		}
+		// a module helper that only hashes/formats its single argument
+		if strings.HasPrefix(callee.Pkg.Pkg.Path(), an.ModPath) && len(callee.Params) == 1 && callee.Signature.Results().Len() == 1 && !helperBusy[callee] {
+			helperBusy[callee] = true
+			defer func() { helperBusy[callee] = false }()
+			ok := true
+			an.Instrs(callee, func(in ssa.Instruction) {
+				if r, isR := in.(*ssa.Return); isR && !injectiveDeps(r.Results[0])[callee.Params[0]] {
+					ok = false
+				}
+			})
+			if !ok {
+				// streaming form: h := <crypto>.New(); h.Write(param); return hex(h.Sum(nil))
+				newH, fed := false, false
+				an.Instrs(callee, func(in ssa.Instruction) {
+					cc := an.CallOf(in)
+					if cc == nil {
+						return
+					}
+					if sc := cc.StaticCallee(); sc != nil && sc.Pkg != nil && strings.HasPrefix(sc.Pkg.Pkg.Path(), "crypto/") && sc.Name() == "New" {
+						newH = true
+					}
+					if cc.IsInvoke() && cc.Method.Name() == "Write" && len(cc.Args) == 1 && an.Deps(cc.Args[0])[callee.Params[0]] {
+						fed = true
+					}
+				})
+				ok = newH && fed
+			}
+			return ok
+		}
+		return false
+	}
+	walk = func(v ssa.Value) {
+		if v == nil || seen[v] {
+			return
+		}
+		seen[v] = true
+		switch x := v.(type) {
+		case *ssa.BinOp:
+			if x.Op.String() == "+" {
+				walk(x.X)
+				walk(x.Y)
+			}
+		case *ssa.Convert:
+			walk(x.X)
+		case *ssa.ChangeType:
+			walk(x.X)
+		case *ssa.MakeInterface:
+			walk(x.X)
+		case *ssa.Phi:
+			for _, e := range x.Edges {
+				walk(e)
+			}
+		case *ssa.UnOp:
+			walk(x.X)
+		case *ssa.FieldAddr:
+			walk(x.X)
+		case *ssa.Field:
+			walk(x.X)
+		case *ssa.Extract:
+			walk(x.Tuple)
+		case *ssa.Slice:
+			// a slice of a locally built array (variadic packaging) is the array; s[a:b] of data is lossy
+			if a, ok := x.X.(*ssa.Alloc); ok {
+				walk(a)
+			}
+		case *ssa.Alloc:
+			for _, ref := range *x.Referrers() {
+				switch r := ref.(type) {
+				case *ssa.Store:
+					if r.Addr == ssa.Value(x) {
+						walk(r.Val)
+					}
+				case *ssa.IndexAddr:
+					for _, r2 := range *r.Referrers() {
+						if st, ok := r2.(*ssa.Store); ok && st.Addr == ssa.Value(r) {
+							walk(st.Val)
+						}
+					}
+				}
+			}
+		case *ssa.Call:
+			if okCall(x) {
+				for _, a := range x.Call.Args {
+					walk(a)
+				}
+			}
+		}
+	}
+	walk(key)
+	return seen
+}
+
+var helperBusy = map[*ssa.Function]bool{}
+
+// c13JoinAllow: memoize sites whose key joins a list with a separator that no element can contain.
+var c13JoinAllow = map[string]string{
+	"internal/operators.newPMFromFile":    "the elements are the lines of the file (split at newlines) and the separator is a newline",
+	"internal/operators.newPMFromDataset": "data-set entries are the lines of a SecDataset block (split at newlines) and the separator is a newline",
 }
